@@ -23,10 +23,10 @@ RULE = (
 
 def plan(tier, seed):
     specs = []
-    n = 32 if tier == 'thorough' else 12
+    n = 128 if tier == 'thorough' else 12
     for k in range(n):
         specs.append(dict(kind='files', sub=k,
-                          count=500 if tier == 'thorough' else 300,
+                          count=6000 if tier == 'thorough' else 300,
                           hashseed=k))
     meta = dict(
         rule=RULE,
